@@ -145,6 +145,9 @@ def _w_graphs(chunk):
     r = core.Res()
     Lmax, items = chunk
     for t, b in items:
+        if core.expired():
+            r.caps.append('deadline reached inside a chunk')
+            break
         acc = np.frombuffer(b, dtype=np.int8).astype(int).reshape(16, 4)
         G = U.rows(acc)
         check_graph(r, 2, G, acc, t, Lmax, tables=True)
@@ -213,7 +216,7 @@ def run(ctx):
         got = dict(pool.imap_unordered(core._call, [(i, name, c) for i, c in enumerate(chunks)], 1))
     found = {}
     for i in range(len(chunks)):
-        for key, m in got[i].found.items():
+        for key, m in (getattr(got[i], 'found', None) or {}).items():
             found.setdefault(key, m)
         got[i].found = None
         ctx.res.merge(got[i])
